@@ -67,6 +67,16 @@ def run_impl(case):
         warnings.simplefilter("ignore")
         try:
             s_in, e_in = ctor_args(case)
+            if case.get("refill"):
+                # the caller's sample container held OTHER multiplicities (same length) when an earlier object was built from it,
+                # and was refilled in place afterwards: the new object must describe what the container holds now
+                final = list(s_in) if isinstance(s_in, list) else s_in.copy()
+                s_in[:] = [x + 7 for x in reversed(list(final))] if isinstance(s_in, list) else (final[::-1] + 7)
+                try:
+                    CentralityClasses(s_in, [0, 50, 100]).get_centrality_class(3)
+                except Exception:
+                    pass
+                s_in[:] = final
             obj = CentralityClasses(s_in, e_in)
             if case.get("decoy"):
                 decoy(case["sample"])
@@ -117,6 +127,14 @@ def oracle(case):
         warnings.simplefilter("ignore")
         try:
             s_in, e_in = ctor_args(case)
+            # (always) the sample container was used before by another object while it held other multiplicities of the same length
+            final = list(s_in) if isinstance(s_in, list) else s_in.copy()
+            s_in[:] = [x + 7 for x in reversed(list(final))] if isinstance(s_in, list) else (final[::-1] + 7)
+            try:
+                CentralityClasses(s_in, [0, 50, 100]).get_centrality_class(3)
+            except Exception:
+                pass
+            s_in[:] = final
             obj = CentralityClasses(s_in, e_in)
         except Exception as e:
             return f"constructor raises {type(e).__name__}: {e} on an admissible sample/edge list"
@@ -250,6 +268,8 @@ def gen_case(rng, small=False, decimal=False):
         case["np"] = rng.choice(["sample", "edges", "both", "queries"])      # numpy arrays / numpy scalars as arguments
         if case["np"] in ("sample", "both") and rng.random() < 0.6:
             case["np_dtype"] = rng.choice(["uint8" if all(isinstance(v, int) and 0 <= v < 256 for v in sample) else "uint16", "uint16", "uint32", "uint64", "int16", "int32"])
+    if rng.random() < 0.25:
+        case["refill"] = True         # the sample container was used before with other content (same length) by another object
     if rng.random() < 0.3:
         case["decoy"] = True          # another object is built in between and the caller overwrites its sample container
     case["queries"] = default_queries(sample)
@@ -529,7 +549,7 @@ def shrink(case):
 
 def _smaller(c):
     s, e, qs = c["sample"], c["edges"], c.get("queries", [])
-    if c.get("np") or c.get("decoy"):
+    if c.get("np") or c.get("decoy") or c.get("refill"):
         yield {"sample": s, "edges": e, "queries": qs}                 # plain lists / Python numbers, nothing in between
     if qs:
         yield dict(c, queries=[])
